@@ -289,6 +289,9 @@ class Ref(object):
             for p in ps:
                 self.nodes[p].we = 0
             return "ok"
+        if op == "pokeid":
+            self.last_id = int(w[1])
+            return "ok"
         if op == "deleteu":
             idx = {}
             for p in unx_list(w[1]):
